@@ -21,6 +21,7 @@ func (sw *SW) registerOps() {
 	ops := map[string]func(st sim.Step){
 		"st.hardfork":     sw.opHardfork,
 		"st.settings":     sw.opSettings,
+		"st.rounds":       sw.opRounds,
 		"st.fund":         sw.opFund,
 		"st.add_validator": sw.opAddValidator,
 		"st.add_blobber":  sw.opAddBlobber,
@@ -91,6 +92,16 @@ func (sw *SW) opSettings(st sim.Step) {
 	o := sw.call(from, pk, "update_settings", map[string]any{"fields": f}, 0)
 	if o.Class == ledger.Success {
 		sw.call(from, pk, "commit_settings_changes", map[string]any{}, 0)
+	}
+}
+
+// st.rounds I=[n]: n empty rounds pass (an older chain: challenge rewards are
+// booked per reward period of block_reward.trigger_period rounds, and in the
+// very first period of a chain no challenge can be passed).
+func (sw *SW) opRounds(st sim.Step) {
+	for i := int64(0); i < st.Int(0, 1) && i < 200; i++ {
+		sw.R.EnsureBlock()
+		sw.R.EndBlock(false)
 	}
 }
 
